@@ -5,6 +5,7 @@ import (
 	"fmt"
 	"sort"
 	"strings"
+	"sync"
 
 	"verif/engine"
 )
@@ -162,10 +163,13 @@ func c14Scenarios() []c14Scenario {
 }
 
 type c14Case struct {
-	Scen int    `json:"scen"`
-	K    int    `json:"k"`    // request position (-1 = fault-free)
-	Kind string `json:"kind"` // transport aws500 ctx
-	Mode string `json:"mode"` // before applied persistent
+	Scen int `json:"scen"`
+	K    int `json:"k"` // -1 = fault-free run (reports the request identities), else ordinal for display only
+	// Ident identifies the request to fail as "OP key #occurrence": concurrent node PUTs of one flush arrive in
+	// a scheduling-dependent order, so an ordinal position would not be reproducible
+	Ident string `json:"ident,omitempty"`
+	Kind  string `json:"kind"` // transport aws500 ctx
+	Mode  string `json:"mode"` // before applied persistent
 }
 
 func init() {
@@ -192,14 +196,14 @@ func c14Run(r *engine.Run) int {
 			continue
 		}
 		var d struct {
-			Requests int `json:"requests"`
+			Idents []string `json:"idents"`
 		}
 		json.Unmarshal(res.Data, &d)
 		r.Add("c14", engine.J(c14Case{Scen: si, K: -1}), res)
-		for k := 0; k < d.Requests; k++ {
+		for k, id := range d.Idents {
 			for _, kind := range []string{"transport", "aws500", "ctx"} {
 				for _, mode := range []string{"before", "applied", "persistent"} {
-					cases = append(cases, engine.J(c14Case{Scen: si, K: k, Kind: kind, Mode: mode}))
+					cases = append(cases, engine.J(c14Case{Scen: si, K: k, Ident: id, Kind: kind, Mode: mode}))
 				}
 			}
 		}
@@ -242,15 +246,23 @@ func c14Worker(raw json.RawMessage) *engine.Result {
 		}
 		return engine.ErrTransport
 	}
+	occ := map[string]int{}
+	var idents []string
+	var identMu sync.Mutex
 	cl.H.Fault = func(rq *engine.Req) (engine.FaultMode, error) {
+		identMu.Lock()
+		defer identMu.Unlock()
 		count++
+		id := fmt.Sprintf("%s %s #%d", rq.Op, rq.Key, occ[rq.Op+" "+rq.Key])
+		occ[rq.Op+" "+rq.Key]++
 		if c.K < 0 {
+			idents = append(idents, id)
 			return engine.FaultNone, nil
 		}
 		if active {
 			return engine.FailBefore, mkErr()
 		}
-		if count == c.K {
+		if id == c.Ident && fired == "" {
 			fired = rq.String()
 			firedStmt = curStmt
 			switch c.Mode {
@@ -427,6 +439,7 @@ func c14Worker(raw json.RawMessage) *engine.Result {
 	if len(w.B.Broken) > 0 {
 		viol("store-invariant", "%v", w.B.Broken)
 	}
-	res.Data = engine.J(map[string]interface{}{"scenario": sc.Name, "requests": reqs, "fault": fmt.Sprintf("#%d %s %s/%s during %s", c.K, fired, c.Kind, c.Mode, firedStmt), "errored_writes": len(errored), "final_rows": len(frows)})
+	sort.Strings(idents)
+	res.Data = engine.J(map[string]interface{}{"scenario": sc.Name, "requests": reqs, "idents": idents, "fault": fmt.Sprintf("#%d %s %s/%s during %s", c.K, fired, c.Kind, c.Mode, firedStmt), "errored_writes": len(errored), "final_rows": len(frows)})
 	return res
 }
